@@ -76,6 +76,7 @@ type Obligation struct {
 	// always find by itself).
 	Splits [][]string
 	Dead   []string // reachability cover: the points found unreachable
+	Undecided int // reachability cover: points the solver did not decide in time
 }
 
 type deferred struct {
